@@ -25,6 +25,8 @@ LEVEL = 'exploration'
 CASE_TIMEOUT = 400
 BATCH_SIZE = {'quick': 1, 'thorough': 4}
 REQUIRED_COUNTERS = ['marker_files_checked', 'pair_gene_decisions',
+                     'holm_running_max_decides',
+                     'gene_list_approx_floors_off_cases',
                      'recorded_markers_judged', 'strict_markers_expected',
                      'pmask_files_checked', 'rename_pairs_compared',
                      'differential_runs_compared',
@@ -51,10 +53,21 @@ ASSUMPTIONS = [
 def gen_cases(tier, seed):
     rng = np.random.default_rng([seed, 111])
     n = 25 if tier == 'quick' else 250
-    return [{'seed': int(rng.integers(2 ** 31))} for _ in range(n)]
+    cases = []
+    for i in range(n):
+        c = {'seed': int(rng.integers(2 ** 31))}
+        if i % 3 == 0:
+            # duplicated genes (tied raw p-values) and a p threshold tuned
+            # so that the running maximum of the Holm step-down decides
+            c['tune_p'] = True
+        if i % 5 == 1:
+            # gene list + approximate penetrance + floors switched off
+            c['force'] = 'list-approx-nofloors'
+        cases.append(c)
+    return cases
 
 
-def make_cells(rng):
+def make_cells(rng, dup=False):
     k = int(rng.integers(3, 8))
     n_genes = int(rng.integers(5, 40))
     names = gen._pick_names(rng, k, gen.NODE_NAME_POOL)
@@ -94,6 +107,17 @@ def make_cells(rng):
     order = rng.permutation(len(labels))
     X = np.array(X)[order]
     labels = [labels[i] for i in order]
+    if dup:
+        # exact copies of a few columns: tied raw p-values in every pair
+        src = rng.choice(n_genes, size=min(n_genes, int(rng.integers(2, 5))),
+                         replace=False)
+        cols = [X]
+        for j in src:
+            for _ in range(int(rng.integers(2, 7))):
+                cols.append(X[:, [int(j)]])
+        X = np.hstack(cols)
+        X = X[:, rng.permutation(X.shape[1])]
+        n_genes = X.shape[1]
     return names, X, labels, n_genes
 
 
@@ -114,13 +138,15 @@ def stats_for(path, out, tmp):
             normalization='raw', tmp_dir=str(tmp), n_processors=2)
 
 
-def holm(p):
+def holm(p, own_out=None):
     m = len(p)
     order = np.argsort(p, kind='stable')
     adj = np.zeros(m)
     running = 0.0
     for rank, idx in enumerate(order):
         val = (m - rank) * p[idx]
+        if own_out is not None:
+            own_out[idx] = val
         running = max(running, val)
         adj[idx] = min(1.0, running)
     return adj
@@ -162,11 +188,13 @@ def oracle_pair(Va, Vb, Ra, Rb):
         p = np.where(both_zero & (np.abs(m1 - m2) > 1e-9), 0.0, p)
         p = np.where(both_zero & (np.abs(m1 - m2) <= 1e-9), 1.0, p)
         out['p_raw'] = p
-        out['p'] = holm(p)
+        out['own'] = np.zeros(len(p))
+        out['p'] = holm(p, out['own'])
         out['fragile_p'] = both_zero & (np.abs(m1 - m2) > 0) & \
             (np.abs(m1 - m2) <= 1e-6)
     else:
         out['p'] = np.ones(Va.shape[1])
+        out['own'] = np.ones(Va.shape[1])
         out['fragile_p'] = np.zeros(Va.shape[1], dtype=bool)
     return out
 
@@ -301,6 +329,12 @@ def judge(ctx, tag, d, names, genes, oracles_by_pair, th, gene_list,
                          and fold >= th['log2_fold_min_th'])
             if strict:
                 ctx.bump('strict_markers_expected')
+            if not small and in_list and o['own'][j] < th['p_th'] <= p \
+                    and not near_p and q1 > th['q1_th'] and \
+                    qd > th['qdiff_th'] and fold > th['log2_fold_th']:
+                # only the running maximum of the step-down keeps this
+                # gene out
+                ctx.bump('holm_running_max_decides')
             if j in rec:
                 ctx.bump('recorded_markers_judged')
                 why = None
@@ -365,7 +399,7 @@ def run_case(spec, work):
     ctx = Ctx()
     tmp = work / 'tmp'
     tmp.mkdir()
-    names, X, labels, n_genes = make_cells(rng)
+    names, X, labels, n_genes = make_cells(rng, dup=bool(spec.get('tune_p')))
     genes = gen.gene_names(rng, n_genes)
     ref = work / 'ref.h5ad'
     write_ref(ref, X, labels, genes, rng)
@@ -401,6 +435,42 @@ def run_case(spec, work):
     gene_list = None
     if rng.random() < 0.35:
         gene_list = [g for g in genes if rng.random() < 0.6] or [genes[0]]
+    if spec.get('force') == 'list-approx-nofloors':
+        exact = False
+        if gene_list is None:
+            gene_list = [g for g in genes if rng.random() < 0.6] or \
+                [genes[0]]
+        th['q1_min_th'] = 0.0
+        th['qdiff_min_th'] = 0.0
+        th['log2_fold_min_th'] = float(rng.choice([0.0, -1.0]))
+        ctx.bump('gene_list_approx_floors_off_cases')
+    if spec.get('tune_p'):
+        # put the p threshold where the step-down's running maximum, not
+        # the gene's own (m-rank) x p, decides: own < p_th <= adjusted, for
+        # a gene that passes the strict score thresholds
+        best = None
+        gl = None if gene_list is None else set(gene_list)
+        for (a, b), o in orc.items():
+            if o['n1'] < 2 or o['n2'] < 2:
+                continue
+            for j in range(n_genes):
+                own, adj = o['own'][j], o['p'][j]
+                if not (0 < own < adj < 1.0):
+                    continue
+                if gl is not None and genes[j] not in gl:
+                    continue
+                if not (o['q1'][j] > th['q1_th'] and
+                        o['qdiff'][j] > th['qdiff_th'] and
+                        o['fold'][j] > th['log2_fold_th']):
+                    continue
+                score = adj / own
+                if own < 1e-12:
+                    score *= 1e-3      # prefer ordinary magnitudes
+                if best is None or score > best[0]:
+                    best = (score, own, adj)
+        if best is not None and best[0] > 1.0 + 1e-4:
+            th['p_th'] = float(np.sqrt(best[1] * best[2]))
+            ctx.bump('cases_with_tuned_p_threshold')
     n_proc = int(rng.integers(1, 4))
     max_gb = float(rng.choice([1e-6, 0.01, 1.0]))
     what = (f'leaves={len(names)} genes={n_genes} th={th} exact={exact} '
